@@ -78,7 +78,7 @@ func jsonRoundTrippable(t types.Type, seen map[types.Type]bool) (bool, string) {
 		}
 		return true, ""
 	case *types.Struct:
-		if nt, ok := t.(*types.Named); ok && nt.Obj().Pkg() != nil && nt.Obj().Pkg().Path() == "time" && nt.Obj().Name() == "Time" {
+		if nt, ok := t.(*types.Named); ok && nt.Obj().Pkg() != nil && nt.Obj().Pkg().Path() == "time" && objName(nt.Obj()) == "Time" {
 			return true, ""
 		}
 		for _, f := range jsonVisibleFields(u) {
@@ -328,7 +328,7 @@ func checkC10(c *Check) {
 	if msgMeta != nil {
 		st := msgMeta.Underlying().(*types.Struct)
 		for i := 0; i < st.NumFields(); i++ {
-			if st.Field(i).Name() == "SMTPOpts" {
+			if objName(st.Field(i)) == "SMTPOpts" {
 				if ost, ok := st.Field(i).Type().Underlying().(*types.Struct); ok {
 					have := map[string]bool{}
 					for _, f := range jsonVisibleFields(ost) {
